@@ -71,6 +71,12 @@ def main():
     if fails and os.environ.get("DEV_SAVE"):
         with open(os.environ["DEV_SAVE"], "w") as fh:
             json.dump(fails[0][0], fh, indent=1)
+    seen = {}
+    for case, f in fails:
+        seen.setdefault(f["oracle"], case)
+    for o, case in seen.items():
+        with open("/tmp/devfail_%s_%s.json" % (pid, o), "w") as fh:
+            json.dump(case, fh, indent=1)
 
 
 main()
